@@ -266,6 +266,15 @@ func GenWorkload(rng *kernel.RNG, c GenCfg) []kernel.Step {
 			if rng.Chance(0.5) {
 				mode = 0
 			}
+			if rng.Chance(0.2) {
+				// the operator switches automatic epoch changes off (extreme MaxBlockChangeView), an epoch
+				// change is committed, and then epoch changes are attempted without the operator witness
+				txs = append(txs, S("updateconfig", 0, anyone(), int64(5+rng.Intn(3))), S("cut"), S("commitdpos", 0, anyone()), S("cut"))
+				for k := 0; k < 1+rng.Intn(3); k++ {
+					txs = append(txs, S("commitdpos", int64(2+rng.Intn(3)), anyone()), S("cut"))
+				}
+				break
+			}
 			switch rng.Intn(4) {
 			case 0:
 				txs = append(txs, S("commitdpos", mode, anyone()))
@@ -304,6 +313,13 @@ func GenWorkload(rng *kernel.RNG, c GenCfg) []kernel.Step {
 			}
 			if !nocut {
 				left = 1
+			}
+			continue
+		}
+		if t.Op == "cut" { // force a block boundary here
+			if !nocut && len(out) > 0 && out[len(out)-1].Op != "block" {
+				out = append(out, S("block", int64(rng.Intn(1000))))
+				left = 1 + rng.Intn(maxb)
 			}
 			continue
 		}
